@@ -18,6 +18,8 @@ type Mutant struct {
 	File     string   `json:"file"` // relative to the repo
 	Find     string   `json:"find"`
 	Replace  string   `json:"replace"`
+	Find2    string   `json:"find2"`
+	Replace2 string   `json:"replace2"`
 	Expect   []string `json:"expect"` // substrings, one of which must occur in a failed obligation's name
 	Note     string   `json:"note"`
 }
@@ -64,6 +66,14 @@ func runSelftest(args []string) int {
 			continue
 		}
 		mut := strings.Replace(string(src), m.Find, m.Replace, 1)
+		if m.Find2 != "" {
+			if strings.Count(mut, m.Find2) != 1 {
+				fmt.Printf("MUTANT %-40s ERROR second pattern occurs %d times\n", m.ID, strings.Count(mut, m.Find2))
+				bad++
+				continue
+			}
+			mut = strings.Replace(mut, m.Find2, m.Replace2, 1)
+		}
 		code, out := runCheck(m.Property, "quick", repo, map[string][]byte{path: []byte(mut)}, false)
 		hit := ""
 		if out != nil {
